@@ -107,7 +107,7 @@ def diff_task(task):
         res['n'] += 1
         r = lexref.cmp(src)
         if r:
-            res['violations'].append(dict(what='real lexer and reference tokenizer disagree', case=repr(src), reference=str(r[1])[:300], real=str(r[2])[:300],
+            res['violations'].append(dict(what='real lexer and reference tokenizer disagree', case=repr(src), reference=lexref.safe(r[1]), real=lexref.safe(r[2]),
                                           replay=dict(type='lex', src=src)))
             if len(res['violations']) > 4:
                 break
@@ -210,6 +210,18 @@ def main():
     # escapes far outside the code space and very long literals in the power-of-two radixes (a decimal literal beyond int()'s digit
     # limit is a located diagnostic by design of the repair, checked in C10)
     extra += ['"\\u{FFFFFFFFFFFFFFFFFFFFFFFF}"', "'\\u{FFFFFFFFFFFFFFFFFFFFFFFF}'", "'\\u{7FFFFFFF}'", "'\\u{80000000}'", '"\\u{100000000}"', '0x' + 'f' * 6000, '0b' + '1' * 20000, '9' * 4300]
+    # decimal literals around the chunking / digit-limit boundaries of int() (value exact up to 4300 digits; beyond, value or diagnostic)
+    for nd_ in (999, 1000, 1001, 3999, 4000, 4001, 4100, 4299, 4301, 7999, 8000, 8001, 12345):
+        extra += ['1' + '0' * (nd_ - 1), '9' * nd_, ('1234567890' * (nd_ // 10 + 1))[:nd_], '1_' + '0' * (nd_ - 1)]
+    # lexing has no memory: every ordered pair (triple) of tokens from a universe that contains every symbol, keyword, flavour and
+    # literal kind, with and without a separating blank, against the reference tokenizer
+    from hidc.lexer import tokens as TK
+    univ = sorted({str(t) for t in TK.enum_tokens}) + ['x', '_y1', '@you', '!dft', '@is_you', '!is_defeat', '0', '17', '0x1F', '0b101', '0o17', '1_000', "'c'", "'\\n'", "'\\''", '"s"', '""', '"a\\"b"', '// c\n', '\n']
+    for a, b in itertools.product(univ, repeat=2):
+        extra += [a + ' ' + b, a + b]
+    small = [u for u in univ if u in ('!', '!=', '=', '==', '<', '<=', '?', '??', '@you', '!dft', 'x', 'is', 'not', '0', '0x1F', "'c'", '"s"', '-', '-=', '/', '// c\n', '.', 'length', '(', ')')] if quick else univ
+    for a, b, c in itertools.product(small, repeat=3):
+        extra.append(a + ' ' + b + ' ' + c)
     rng = random.Random(rep.seed)
     for _ in range(400 if quick else 40000):
         extra.append(''.join(rng.choice(alpha + ['0x', '0b', '0o', '_', '\\x41', '\\u{e9}', '//', '<=', '??', 'is', 'true', '"', '"']) for _ in range(rng.randrange(4, 12))))
